@@ -195,8 +195,8 @@ pub fn run(m128: bool, seed: u64, steps: usize, judge: Judge, prefix: &str, ctx:
             *r = cpu_state(e).to_ref();
             *t_ref = frames_impl * frame + e.verif_frame_clocks() as u64;
         };
-        if amb || io_read {
-            // a device decides the value read / two devices were selected: adopt the machine's state
+        if amb {
+            // two devices were selected: adopt the machine's state
             ctx.ambiguous += 1;
             let _ = undo;
             resync(&mut e, &mut m, &mut r, &mut t_ref, frames_impl);
@@ -207,7 +207,10 @@ pub fn run(m128: bool, seed: u64, steps: usize, judge: Judge, prefix: &str, ctx:
             post_i.memptr = post_r.memptr;
             post_i.q = post_r.q;
             post_i.no_sample = post_r.no_sample;
-            if let Some((f, a, b)) = post_i.diff(&post_r, 0x28) {
+            // a port read gets its value from a device: the time it takes is judged, the registers and the
+            // bytes it stored are adopted from the machine afterwards
+            let value_diff = if io_read { None } else { post_i.diff(&post_r, 0x28) };
+            if let Some((f, a, b)) = value_diff {
                 // not a timing matter (C01 / C06 judge values)
                 ctx.probe("lockstep_value_divergence_skipped");
                 let _ = (f, a, b);
@@ -267,6 +270,11 @@ pub fn run(m128: bool, seed: u64, steps: usize, judge: Judge, prefix: &str, ctx:
             } else {
                 t_ref = t_after;
                 since_sync += 1;
+                if io_read {
+                    ctx.probe("lockstep_port_read_timed");
+                    sync_model_from_machine(&mut e, &mut m, m128);
+                    r = cpu_state(&mut e).to_ref();
+                }
                 let mut h = Fnv::new();
                 h.u8(m128 as u8);
                 h.u8(info.page as u8);
